@@ -307,7 +307,25 @@ class Engine:
         self.auto_inline = None             # callable(engine, callee text, caller path) -> body path | None
 
     # ---------------- path enumeration ----------------
-    def explore(self, path, args=None, setup=None):
+    def find_blocks(self, path, callee_rx):
+        """block numbers of body `path` whose terminator calls a callee matching callee_rx (non-cleanup blocks)"""
+        body = self.idx.body(path)
+        out = []
+        for n in sorted(body.blocks):
+            if n in body.cleanup:
+                continue
+            raw = body.blocks[n][1][1]
+            if ") -> " not in raw:
+                continue
+            try:
+                t = parse_statement_line(raw)
+            except MirError:
+                continue
+            if getattr(t, "kind", None) == "call" and re.search(callee_rx, strip_generics(t.callee)):
+                out.append(n)
+        return out
+
+    def explore(self, path, args=None, setup=None, start_bb=0, stop_calls=None):
         """Enumerate all feasible paths of body `path`. args: list of Val for _1.._n (fresh Syms if None).
         setup(engine, args) may add initial constraints via engine.assume()."""
         body = self.idx.body(path)
@@ -325,8 +343,9 @@ class Engine:
             if setup:
                 setup(self, a)
             status, note, ret = "return", "", None
+            self.stop_calls = stop_calls
             try:
-                ret = self.run_body(body, a, depth=0)
+                ret = self.run_body(body, a, depth=0, start_bb=start_bb)
             except EndPath as e:
                 status, note = e.status, e.note
             for alt in self.alternatives:
@@ -408,14 +427,14 @@ class Engine:
         return l
 
     # ---------------- execution ----------------
-    def run_body(self, body, args, depth):
+    def run_body(self, body, args, depth, start_bb=0):
         if depth > self.max_depth:
             raise Inconclusive("inline depth exceeded at " + body.path)
         fr = Frame(body, next(self.fid))
         self.frames[fr.id] = fr
         for i, a in enumerate(args):
             fr.locals[i + 1] = a
-        bb = 0
+        bb = start_bb
         while True:
             fr.visits[bb] = fr.visits.get(bb, 0) + 1
             if fr.visits[bb] > self.loop_bound + 1:
@@ -450,6 +469,9 @@ class Engine:
                 self.events.append(Event("yield", "yield", [], None, (body.path, bb)))
                 raise EndPath("cut", "yield reached (a polled future returned Pending)")
             elif k == "call":
+                if depth == 0 and getattr(self, "stop_calls", None) and re.search(self.stop_calls, strip_generics(term.callee)) \
+                        and not (bb == start_bb and fr.visits.get(bb, 0) == 1 and start_bb != 0):
+                    raise EndPath("stop", "reached " + strip_generics(term.callee).split("::")[-1])
                 r = self.do_call(fr, term, depth, bb)
                 if term.target is None:
                     raise EndPath("panic", "diverging call " + term.callee[:60])
@@ -900,7 +922,10 @@ class Engine:
         # 4. uninterpreted
         self.uninterpreted.add(callee)
         r = self.fresh(("ret", callee), ret_ty)
-        self.events.append(Event("call", callee, args, r, site, rargs=self.snapshot(args)))
+        ev = Event("call", callee, args, r, site, rargs=self.snapshot(args))
+        self.events.append(ev)
+        if self.event_hook is not None:
+            self.event_hook(self, ev)
         return r
 
     def snapshot(self, args):
@@ -995,7 +1020,7 @@ class Engine:
                 if oa is not None and ob is not None:
                     e = oa == ob
                     return Scalar(e if m.group(3) == "eq" else z3.Not(e))
-            if tn in self.enums:
+            if tn in self.enums and tn in FIELDLESS:
                 da, db = self.discr_of(la), self.discr_of(lb)
                 if da is not None and db is not None:
                     e = da == db
@@ -1047,6 +1072,10 @@ class Engine:
                     return args[1]
                 if op == "ok":
                     return self.mk_enum("Option", "None", [])
+        # --- Result::map_err / Option::ok_or on symbolic values: the variant and the Ok payload are preserved ---
+        if re.search(r"Result::map_err$", c) and args and isinstance(args[0], Sym):
+            r0 = args[0]
+            return Sym(("conv", "map_err", r0), over={"discr": r0.discr(), ("v", "Ok", 0): r0.child(("v", "Ok", 0))})
         # --- formatting / logging: no semantic effect tracked, keep argument origins for data-flow checks ---
         if c.endswith("Argument::new_display") or c.endswith("Argument::new_debug") or c.endswith("Argument::new_lower_hex"):
             return Agg("fmt::Argument", [self.peel(args[0])], kind="struct")
@@ -1128,6 +1157,9 @@ def fmt_leaves(v, out=None, depth=0):
     return out
 
 
+FIELDLESS = {"Ordering"}      # enums whose equality is equality of discriminants
+
+
 def scan_enums(src_dirs):
     """{EnumName: [variants]} for field-less-or-not enums declared in the given source trees (no explicit discriminants)."""
     import os
@@ -1151,15 +1183,21 @@ def scan_enums(src_dirs):
                     body = re.sub(r"#\[[^\]]*\]", "", body)
                     vs = []
                     ok = True
+                    unit = True
                     for part in split_top(body):
                         mm = re.match(r"\s*(\w+)", part)
                         if not mm:
                             continue
                         if re.match(r"\s*\w+\s*=", part):
                             ok = False
+                        if not re.match(r"\s*\w+\s*$", part):
+                            unit = False
                         vs.append(mm.group(1))
                     if ok and vs:
-                        enums.setdefault(m.group(1), vs)
+                        if m.group(1) not in enums:
+                            enums[m.group(1)] = vs
+                            if unit:
+                                FIELDLESS.add(m.group(1))
     return enums
 
 
